@@ -178,15 +178,20 @@ Definition spec_oci_tag (d : desc) (r : ref) (t : list (ref * desc)) : list (ref
   let t1 := if ref_eqb r (RDig (d_dig d)) then t else put ref_eqb (RDig (d_dig d)) d t in
   put ref_eqb r d t1.
 
-(* Store.delete: drop every reference whose descriptor content.Equal the target.
+(* Store.delete: drop every reference to the digest of the target (blobs are stored by
+   digest; before the audit-F3 repair the test was content.Equal, which left references
+   tagged with another media type -- e.g. the application/octet-stream descriptor that
+   Resolve(<digest>) hands out for a plain blob -- dangling).
    [untag_fold] walks a snapshot of the tag map (Go map iteration: any order) and
    deletes the matching references one by one; [spec_untag_equal] is the order-free
    reading (Proofs/Stores.v: they agree on every lookup, for every snapshot order). *)
+Definition eq_target (d' : desc) (k : gkey) : bool := d_dig d' =? k_dig k.
+
 Definition untag_fold (k : gkey) (snapshot t : list (ref * desc)) : list (ref * desc) :=
-  fold_left (fun acc e => if gkey_eqb (gk (snd e)) k then del ref_eqb (fst e) acc else acc) snapshot t.
+  fold_left (fun acc e => if eq_target (snd e) k then del ref_eqb (fst e) acc else acc) snapshot t.
 
 Definition spec_untag_equal (k : gkey) (t : list (ref * desc)) : list (ref * desc) :=
-  filter (fun e => negb (gkey_eqb (gk (snd e)) k)) t.
+  filter (fun e => negb (eq_target (snd e) k)) t.
 
 Definition ospec_step (U : N -> gkey) (s : ospec) (o : op) : ospec * out :=
   match o with
@@ -359,7 +364,7 @@ Definition oci_tag (d : desc) (r : ref) (s : resolver) : resolver :=
 (* Store.delete's loop over tagResolver.Map(): untag every reference whose
    descriptor content.Equal the target; [snapshot] is the iteration order *)
 Definition oci_untag_equal (k : gkey) (snapshot : list (ref * desc)) (s : resolver) : resolver :=
-  fold_left (fun acc e => if gkey_eqb (gk (snd e)) k then res_untag (fst e) acc else acc) snapshot s.
+  fold_left (fun acc e => if eq_target (snd e) k then res_untag (fst e) acc else acc) snapshot s.
 
 Definition oci_step (s : oci_store) (o : op) : oci_store * out :=
   match o with
